@@ -295,7 +295,7 @@ def cond_edges_dominating(fn, node, skip_bailouts=False):
     if w is None:
         return []
     b = w[0]
-    out = []
+    out = [] if skip_bailouts else guard_clause_facts(fn, node)
     for bid, blk in cfg.blocks.items():
         cs = cfg.cond_succ(bid)
         if cs is None or blk.get("termk") == "SwitchStmt":
@@ -317,6 +317,38 @@ def cond_edges_dominating(fn, node, skip_bailouts=False):
             if skip_bailouts and _is_bailout(fn, t):
                 continue
             out.extend(_expand(cn, False))
+    return out
+
+
+def _always_leaves(st):
+    """statement never completes normally (ends in throw / return on every syntactic path)"""
+    if st is None:
+        return False
+    k = st.get("k")
+    if k in ("CXXThrowExpr", "ReturnStmt"):
+        return True
+    if k == "CompoundStmt":
+        return bool(st.get("c")) and _always_leaves(st["c"][-1])
+    if k == "IfStmt":
+        return st.get("else") is not None and _always_leaves(st.get("then")) and _always_leaves(st.get("else"))
+    return False
+
+
+def guard_clause_facts(fn, node):
+    """earlier sibling statements of the form  if (C) throw/return;  imply C is false at `node`
+    (covers compound conditions whose false edge is not a single CFG edge)"""
+    out = []
+    prev = node
+    for a in fn.ancestors(node):
+        if a.get("k") == "CompoundStmt":
+            for st in a.get("c", []):
+                if st is prev or any(x is prev for x in walk(st)):
+                    break
+                if st.get("k") == "IfStmt" and st.get("else") is None and _always_leaves(st.get("then")) and st.get("cond") is not None:
+                    out.extend(_expand(st["cond"], False))
+        if a.get("k") in ("LambdaExpr",):
+            break
+        prev = a
     return out
 
 
